@@ -1209,6 +1209,60 @@ class _NP:
             return elementwise(f, x, dtype="bool")
         return f(x)
 
+    def isclose(self, a, b, rtol=1e-05, atol=1e-08, equal_nan=False):
+        """|a - b| <= atol + rtol * |b| on finite reals (NumPy's definition), elementwise with broadcasting"""
+        f = lambda x, y: (abs(lift(x) - y) <= lift(atol) + lift(rtol) * abs(lift(y)))
+        if isinstance(a, Arr) or isinstance(b, Arr):
+            return elementwise(f, a, b, dtype="bool")
+        return f(a, b)
+
+    def allclose(self, a, b, rtol=1e-05, atol=1e-08, equal_nan=False):
+        a = from_nested(list(a)) if isinstance(a, (list, tuple)) else a
+        b = from_nested(list(b)) if isinstance(b, (list, tuple)) else b
+        return self.all(self.isclose(a, b, rtol=rtol, atol=atol))
+
+    def array_equal(self, a, b):
+        a = from_nested(list(a)) if isinstance(a, (list, tuple)) else a
+        b = from_nested(list(b)) if isinstance(b, (list, tuple)) else b
+        if not (isinstance(a, Arr) and isinstance(b, Arr)):
+            return V.num_eq(a, b)
+        if a.ndim != b.ndim:
+            return False
+        same_shape = b_and(*[lift(x) == y for x, y in zip(a.shape, b.shape)])
+        e = cur()
+        if not e.truth(same_shape):          # decided on this path
+            return False
+        return self.all(elementwise(lambda x, y: V.num_eq(x, y), a, b, dtype="bool"))
+
+    def square(self, x):
+        return x * x
+
+    def ascontiguousarray(self, x, dtype=None):
+        """returns the array itself when it already is an ndarray of that type (no copy): writes through the result reach the argument"""
+        if isinstance(x, Arr) and (dtype is None or A.dtype_kind(dtype) in (None, x.kind)):
+            return x
+        return self.array(x, dtype=dtype)
+
+    asfortranarray = ascontiguousarray          # may or may not copy, depending on the memory layout: the no-copy case is the one that matters
+
+    def empty(self, shape, dtype=None):
+        kind = A.dtype_kind(dtype) or "float"
+        return A.fresh_symbolic("empty", self._shape(shape), dtype=kind, eng=cur())
+
+    def eye(self, n, dtype=None):
+        return Arr((n, n), lambda idx: ite(V.num_eq(idx[0], idx[1]), 1.0, 0.0), dtype=A.dtype_kind(dtype) or "float")
+
+    def reciprocal(self, x):
+        """1/x; for integer input NumPy computes the INTEGER reciprocal (0 unless x is +-1)"""
+        def f(v):
+            if isinstance(v, int) or (isinstance(v, Num) and v.is_int):
+                return ite(V.num_eq(v, 1), 1, ite(V.num_eq(v, -1), -1, 0))
+            return V.num_div(1.0, v)
+        return elementwise(f, x, dtype=x.kind) if isinstance(x, Arr) else f(x)
+
+    def ptp(self, x, axis=None):
+        return self._extreme(x, "max", axis) - self._extreme(x, "min", axis)
+
     def isinf(self, x):
         f = lambda v: (b_not(lift(v).finite()) if isinstance(v, (Num, float)) else False)
         if isinstance(x, Arr):
@@ -1613,11 +1667,21 @@ class _NP:
             raise Unsupported("np.unique of non 1-d")
         return sorted_unique(cur(), x)
 
-    def sort(self, x):
-        """D7: np.sort of an array already known strictly increasing is that array"""
+    def sort(self, x, axis=-1, kind=None):
+        """D7: np.sort of an array already known strictly increasing is that array; a 1-d array is sorted through the sorted() contract
+        (D12); a 2-d array along axis 0 has every column sorted on its own"""
+        e = cur()
         if getattr(x, "strictly_increasing", False):
             return x
-        raise Unsupported("np.sort of an arbitrary array")
+        if isinstance(x, Arr) and x.ndim == 1:
+            f = x.snapshot_fn()
+            sm = sorted_model(e, SymSeq(x.shape[0], lambda k: f((k,))), None, False)
+            return Arr(x.shape, lambda idx: sm.get(idx[0]), dtype=x.kind)
+        if isinstance(x, Arr) and x.ndim == 2 and axis == 0 and isinstance(x.shape[1], int):
+            f = x.snapshot_fn()
+            cols = [sorted_model(e, SymSeq(x.shape[0], (lambda k, c=c: f((k, c)))), None, False) for c in range(x.shape[1])]
+            return Arr(x.shape, lambda idx: A.table_lookup({(c,): cols[c].get(idx[0]) for c in range(len(cols))}, (idx[1],)), dtype=x.kind)
+        raise Unsupported("np.sort of an arbitrary array (axis=%r, ndim=%s)" % (axis, getattr(x, "ndim", "?")))
 
     def iinfo(self, t):
         name = getattr(t, "name", getattr(t, "__name__", str(t)))
